@@ -18,6 +18,10 @@ from .util import jdigest, jdump
 KNOWN_FILE = os.path.join(VERIF, "known_findings.json")
 REPLAY_DIR = os.path.join(VERIF, "replays")
 EVIDENCE_DIR = os.path.join(VERIF, "evidence")
+if os.path.realpath(os.environ.get("VERIF_REPO", "/repo")) != "/repo":
+    # runs against a scratch copy (sensitivity / seeded mutants) never overwrite the real evidence
+    REPLAY_DIR = "/dev/shm/simbox-scratch/replays"
+    EVIDENCE_DIR = "/dev/shm/simbox-scratch/evidence"
 
 COMPONENTS = {
     "real": [
@@ -175,7 +179,7 @@ def _is_known(known, prop, key):
     return None
 
 
-def shrink(check, exp, viol, ctx, budget=40, log=print):
+def shrink(check, exp, viol, ctx, budget=24, log=print):
     """greedy: accept a candidate if the same violation clause persists"""
     target = viol["clause"]
     cur, cur_v = exp, viol
@@ -302,14 +306,14 @@ def run_check(check: Check, tier: str, seed: int, jobs: int, out=print):
                     known_hits.setdefault(k["key"], [k, 0])[1] += 1
                 else:
                     violations.append((exp, v, outcomes))
-            if len(violations) >= 3:
+            if len({v["key"] for _, v, _ in violations}) >= 4:
                 stop = True
 
     # report
     reported = []
     seen_keys = set()
     for exp, v, outcomes in violations:
-        if v["key"] in seen_keys:
+        if v["key"] in seen_keys or len(seen_keys) >= 6:
             continue
         seen_keys.add(v["key"])
         try:
